@@ -116,6 +116,32 @@ pub fn common(sc: &Scenario, h: &History, signed: &Signeds, out: &mut Outcome) {
             out.count("panics_observed", 1);
         }
     }
+    if sc.alt_values != 0 {
+        out.count("fault.F8_sessions_with_values_decoded_from_foreign_bytes", 1);
+    }
+    if sc.world.decoded_scripts {
+        out.count("fault.F8_sessions_with_scripts_decoded_from_bytes", 1);
+    }
+    {
+        // the same entry handed over again (certificate, withdrawal account, input, reference input, mint asset)
+        let mut seen: BTreeSet<String> = BTreeSet::new();
+        for o in &sc.ops {
+            let key = match o {
+                Op::Cert(c, _) => Some(format!("cert {:?}", c)),
+                Op::Wdr(c, _, _) => Some(format!("wdr {:?}", c)),
+                Op::InUtxo(u) | Op::InLegacy(u) => Some(format!("in {}", u)),
+                Op::RefIn(u, _) => Some(format!("ref {}", u)),
+                Op::Mint { wit, name, .. } => Some(format!("mint {} {:?}", wit.script, name)),
+                Op::Propose(p, _) => Some(format!("prop {:?}", p)),
+                _ => None,
+            };
+            if let Some(k) = key {
+                if !seen.insert(k) {
+                    out.count("fault.F6_entry_handed_over_again", 1);
+                }
+            }
+        }
+    }
     if !h.draws.is_empty() {
         out.count("fault.S1_rng_schedule_runs", 1);
         out.count("fault.S1_rng_draws_answered", h.draws.len() as u64);
@@ -584,7 +610,7 @@ impl Prop for BuilderProp {
         v
     }
     fn fault_kinds(&self) -> Vec<&'static str> {
-        vec!["S1 RNG schedule", "S2 hash-order schedule", "F4 failed operation then continue", "K9 knob randomisation"]
+        vec!["S1 RNG schedule", "S2 hash-order schedule", "F4 failed operation then continue", "F6 repeated hand-over / replacement of an entry", "F8 values decoded from another producer's encoding", "K9 knob randomisation"]
     }
 }
 
